@@ -20,6 +20,7 @@ Directives (one per line, leading whitespace ignored):
       //@entry                following lines go right after the opening brace of the body
       //@exit                 ... right before the closing brace (unit-valued bodies)
       //@tail                 ... after the last top-level `;` of the body (before a tail expression)
+      //@closure K [RET_TYPE]  ... contract for the K-th closure (a last call argument): `|x| e)` -> `|x| -> (ret: T) <text> { e })`
       //@afterblock "TOKEN" [#k] ... right after the block statement (if/match/unsafe, with its else branches) starting at the token
       //@loopafter K          ... right after the closing `}` of the K-th loop
       //@loop K [bind=ID]     ... before the `{` of the K-th loop (invariant/decreases); bind= names a for-iterator
@@ -497,6 +498,32 @@ def weave_fn(src, container, name, nth, opts, subs, mode, sig_only=False):
                 b.add(lc, body_text + '\n')
             elif kind == 'loopafter':
                 b.add(lc + 1, '\n' + body_text + '\n')
+        elif kind == 'closure':
+            # //@closure K RET_TYPE : contract text for the K-th closure that is the last argument of a call; its body expression
+            # gets braces: `|x| e)` -> `|x| -> (ret: RET_TYPE) <text> { e })`  (insertions only)
+            parts = arg.split(None, 1)
+            kk = int(parts[0]); rty = parts[1].strip() if len(parts) > 1 else 'bool'
+            heads = [m for m in re.finditer(r'\|[A-Za-z0-9_,: ]*\|', b.text) if m.start() > bo and b.mask[m.start()]]
+            if kk > len(heads):
+                raise Undecided('anchor lost: closure %d of %s::%s' % (kk, container, name))
+            check_anchor('%s::%s|closures' % (container, name), len(heads))
+            h = heads[kk - 1]
+            d = 0
+            j = h.end()
+            while j < len(b.text):
+                if b.mask[j]:
+                    ch = b.text[j]
+                    if ch in '({[':
+                        d += 1
+                    elif ch in ')}]':
+                        if d == 0:
+                            break
+                        d -= 1
+                j += 1
+            if j >= len(b.text) or b.text[j] != ')':
+                raise Undecided('anchor lost: closure %d of %s::%s is not a last call argument' % (kk, container, name))
+            b.add(h.end(), ' -> (ret: %s)\n%s\n{' % (rty, body_text))
+            b.add(j, ' }')
         elif kind == 'afterblock':
             # after the closing brace of the block statement (if / if-let / match / unsafe ... with its else branches) that starts at the token
             m = re.match(r'\s*"((?:[^"\\]|\\.)*)"\s*(?:#(\d+))?\s*$', arg)
@@ -754,7 +781,9 @@ def stub_lemmas(text):
         if text[o] != '{':
             continue
         c = src.match_close(o)
-        # strip a `decreases` clause? (kept: harmless for external_body)
+        # termination helpers (#[via_fn]) must keep their bodies: the recursive spec fn they justify stays open in stub mode
+        if re.search(r'#\[via_fn\]\s*$', text[max(0, st - 40):st]):
+            continue
         attr_start = st
         out.append(text[cur:attr_start])
         out.append('#[verifier::external_body] /* lemma proved in its home unit */ ')
